@@ -100,6 +100,16 @@ Theorem C23_gcdext_total : forall p a b, prime p -> wf p a -> wf p b -> exists g
 Proof. exact gcdext_total. Qed.
 Print Assumptions C23_gcdext_total.
 
+(** powmod (as repaired by a226feb: base reduced first): exponent >= 1 and nonzero modulus give a reduced normal form;
+    zero modulus raises *)
+Theorem C23_powmod_reduced : forall p a n b r, prime p -> wf p a -> wf p b -> b <> [] -> (1 <= n)%Z ->
+  powmod p a n (Some b) = Ok r -> wf p r /\ length r < length b.
+Proof. exact powmod_reduced. Qed.
+Print Assumptions C23_powmod_reduced.
+Theorem C23_powmod_zero_modulus : forall p a n, (1 <= n)%Z -> powmod p a n (Some []) = ZeroDiv.
+Proof. exact powmod_zero_modulus. Qed.
+Print Assumptions C23_powmod_zero_modulus.
+
 (** (f) the binary class refines the list class at p = 2 (addition/subtraction = xor) *)
 Theorem C23_gf2x_add_refines : forall a b, (0 <= a)%Z -> (0 <= b)%Z -> bits (add2 a b) = add 2 (bits a) (bits b).
 Proof. exact bits_add2. Qed.
